@@ -111,30 +111,32 @@ type ctxKey struct{}
 
 // X is the context of one execution of a rendered function.
 type X struct {
-	Exec     int
-	P        *Prog
-	S        *Scen
-	mu       sync.Mutex
-	evs      []Ev
-	n        int64
-	ctx      context.Context
-	cancel   context.CancelFunc
-	cbegun   bool
-	cdone    bool
-	over     int32
-	errs     map[string]error
-	pvals    map[string]interface{}
-	ferr     map[int]error // leaf -> error passed to FlowError/ParallelError
-	units    map[int]*Unit
-	InBody   int32
-	barNeed  int32
-	inBar    int32
-	maxBar   int32
-	barFull  chan struct{}
-	barOnce  sync.Once
-	holdc    chan struct{}
-	heldc    chan struct{}
-	heldOnce sync.Once
+	Exec       int
+	P          *Prog
+	S          *Scen
+	mu         sync.Mutex
+	evs        []Ev
+	n          int64
+	ctx        context.Context
+	cancel     context.CancelFunc
+	cbegun     bool
+	cdone      bool
+	over       int32
+	errs       map[string]error
+	pvals      map[string]interface{}
+	ferr       map[int]error // leaf -> error passed to FlowError/ParallelError
+	units      map[int]*Unit
+	InBody     int32
+	barNeed    int32
+	inBar      int32
+	maxBar     int32
+	barFull    chan struct{}
+	barRelease chan struct{} // closed by the runner when the barrier cannot fill
+	barVerdict atomic.Value
+	barOnce    sync.Once
+	holdc      chan struct{}
+	heldc      chan struct{}
+	heldOnce   sync.Once
 	// Bare: executions under the race detector that must not synchronise with the generated code: no event
 	// log, no counters; user functions only sleep and return / panic.
 	Bare   bool
@@ -143,7 +145,7 @@ type X struct {
 
 // NewX prepares an execution.
 func NewX(exec int, p *Prog, s *Scen) *X {
-	x := &X{Exec: exec, P: p, S: s, barFull: make(chan struct{}), holdc: make(chan struct{}), heldc: make(chan struct{}), errs: map[string]error{}, pvals: map[string]interface{}{}, ferr: map[int]error{}, units: map[int]*Unit{}}
+	x := &X{Exec: exec, P: p, S: s, barFull: make(chan struct{}), barRelease: make(chan struct{}), holdc: make(chan struct{}), heldc: make(chan struct{}), errs: map[string]error{}, pvals: map[string]interface{}{}, ferr: map[int]error{}, units: map[int]*Unit{}}
 	for i := range p.Units {
 		x.units[p.Units[i].ID] = &p.Units[i]
 	}
@@ -481,7 +483,8 @@ func (x *X) enter(u, idx int, ctx context.Context, toks []int) {
 		}
 		select {
 		case <-x.barFull:
-		case <-time.After(1500 * time.Millisecond):
+		case <-x.barRelease: // the runner found the barrier provably unable to fill, or gave up
+		case <-time.After(40 * time.Second): // never block a body for good
 		}
 		atomic.AddInt32(&x.inBar, -1)
 	}
@@ -489,7 +492,7 @@ func (x *X) enter(u, idx int, ctx context.Context, toks []int) {
 		x.heldOnce.Do(func() { close(x.heldc) })
 		select {
 		case <-x.holdc:
-		case <-time.After(4 * time.Second): // never block a body for good
+		case <-time.After(40 * time.Second): // never block a body for good
 		}
 	}
 }
@@ -550,7 +553,9 @@ func (x *X) Ret(err error, results ...int) {
 	if x.Bare {
 		return
 	}
-	if x.S.Barrier && x.barNeed > 0 {
+	if x.S.Barrier && x.barNeed > 0 && x.barVerdict.Load() == "slow" && atomic.LoadInt32(&x.maxBar) < x.barNeed {
+		x.add(Ev{Ev: "info", Note: "capacity probe skipped: barrier neither full nor provably stuck", Idx: -1})
+	} else if x.S.Barrier && x.barNeed > 0 {
 		x.add(Ev{Ev: "capacity", K: int(atomic.LoadInt32(&x.maxBar)), Idx: int(x.barNeed), G: vt.GoID()})
 	}
 	kind, toks := x.classify(err)
